@@ -24,7 +24,7 @@ RULE = (
     'scenario activity is activated at a time > T. non-trivial = a judged block that was ended '
     'by its notification; distinct = activation trace'
 )
-RULE = RULE + (' Further scenarios: conditions (8 shapes) that served an earlier simulation, date conditions across an aborted simulation, blocks whose body uses its own notification object again (6 uses).')
+RULE = RULE + (' Further scenarios: conditions (8 shapes) that served an earlier simulation, date conditions across an aborted simulation, blocks whose body uses its own notification object again (6 uses), bodies suspended in a wait of a primitive (13 kinds) that completes in the time step of the notification.')
 
 LEVEL_TEXT = (
     'Exploration by runtime monitoring with a reference model: the virtual time at which the '
@@ -784,8 +784,157 @@ def own_notification_inside(case, rng):
     return violations, sess
 
 
+def primitive_waits(case, rng):
+    """the body of `until(n)` is suspended in a wait of some primitive - a message, an item, a
+    lock, resources, a transfer, a task, a collection of activities - and what it waits for
+    arrives in the very time step in which n fires, before or after the block's interrupt has
+    been queued: the block still ends in that time step, and the body is not continued beyond
+    its next suspension point (whether or not it still got what it waited for)"""
+    import usim
+    from usim import (time, until, Flag, Tracked, Scope, Channel, Queue, Lock, Resources,
+                      Capacities, Pipe, collect, first)
+    fire_at = rng.choice([5, 5, 6.5, 8])
+    wait = rng.choice(['channel-await', 'channel-iter', 'queue-get', 'queue-iter', 'lock',
+                       'borrow', 'borrow-capacity', 'flag', 'tracked', 'task', 'transfer',
+                       'collect', 'first'])
+    trigger = rng.choice(['delay', 'date', 'moment', 'flag', 'tracked', 'or'])
+    completer_late = rng.random() < 0.5
+    setter_late = rng.random() < 0.5
+    completer_first = rng.random() < 0.5
+    in_child = rng.random() < 0.3
+    log = []
+    channel, queue, lock = Channel(), Queue(), Lock()
+    supply, capacity, pipe = Resources(a=2), Capacities(a=2), Pipe(throughput=2)
+    gate, level, fired, meter = Flag(), Tracked(0), Flag(), Tracked(0)
+
+    async def sleep_until(date, late):
+        if late:
+            await (time + 2)        # (the wake-up for `date` is queued after the block began)
+        await (time + (date - time.now))
+
+    async def work(duration, value):
+        await (time + duration)
+        return value
+
+    async def holder():
+        # holds what the body asks for until the time at which the block is ended
+        async with lock:
+            async with supply.borrow(a=2):
+                async with capacity.borrow(a=2):
+                    await sleep_until(fire_at, completer_late)
+
+    async def completer():
+        await sleep_until(fire_at, completer_late)
+        if wait.startswith('channel'):
+            await channel.put('message')
+        elif wait.startswith('queue'):
+            await queue.put('item')
+        elif wait == 'flag':
+            await gate.set()
+        elif wait == 'tracked':
+            await level.set(5)
+
+    async def setter():
+        await sleep_until(fire_at, setter_late)
+        if trigger in ('flag', 'or'):
+            await fired.set()
+        else:
+            await meter.set(7)
+
+    async def body(scope):
+        if wait == 'channel-await':
+            await channel
+        elif wait == 'channel-iter':
+            async for _ in channel:
+                break
+        elif wait == 'queue-get':
+            await queue
+        elif wait == 'queue-iter':
+            async for _ in queue:
+                break
+        elif wait == 'lock':
+            async with lock:
+                log.append(('resumed', time.now))
+                await (time + 10)
+        elif wait == 'borrow':
+            async with supply.borrow(a=1):
+                log.append(('resumed', time.now))
+                await (time + 10)
+        elif wait == 'borrow-capacity':
+            async with capacity.borrow(a=2):
+                log.append(('resumed', time.now))
+                await (time + 10)
+        elif wait == 'flag':
+            await gate
+        elif wait == 'tracked':
+            await (level > 3)
+        elif wait == 'task':
+            await scope.do(work(fire_at - time.now, 'done'))
+        elif wait == 'transfer':
+            await pipe.transfer(2 * (fire_at - time.now))
+        elif wait == 'collect':
+            await collect(work(fire_at - time.now, 'a'), work(1, 'b'))
+        elif wait == 'first':
+            async for _ in first(work(fire_at - time.now, 'a'), work(fire_at - time.now + 3, 'b')):
+                break
+        log.append(('resumed', time.now))
+        await (time + 10)
+        log.append(('continued', time.now))
+
+    async def subject(scope):
+        await (time + 1)
+        notification = {
+            'delay': lambda: time + (fire_at - 1), 'date': lambda: time >= fire_at,
+            'moment': lambda: time == fire_at, 'flag': lambda: fired,
+            'tracked': lambda: meter > 3, 'or': lambda: fired | (time >= fire_at + 30),
+        }[trigger]()
+        async with until(notification):
+            if in_child:
+                async with Scope() as inner:
+                    inner.do(body(inner))
+            else:
+                await body(scope)
+        log.append(('block left', time.now))
+
+    async def main():
+        async with Scope() as scope:
+            if wait in ('lock', 'borrow', 'borrow-capacity'):
+                scope.do(holder())
+            else:
+                mine = [completer()]
+            others = [setter()] if trigger in ('flag', 'tracked', 'or') else []
+            if wait not in ('lock', 'borrow', 'borrow-capacity'):
+                others = mine + others if completer_first else others + mine
+            for coro in others:
+                scope.do(coro)
+            await subject(scope)
+            await (time + 30)       # whatever the body would still do shows up in the log
+
+    sess = Session()
+    outcome = sess.run(main())
+    violations = [dict(v) for v in sess.violations if v['mechanism'].startswith('kernel-')]
+    what = 'until(%s) around a body%s suspended in %s, both due at %r (completer %s, setter %s, ' \
+           '%s first)' % (trigger, ' (a child)' if in_child else '', wait, fire_at,
+                          'late' if completer_late else 'early', 'late' if setter_late else 'early',
+                          'completer' if completer_first else 'setter')
+    if outcome[0] != 'ok':
+        violations.append({'mechanism': 'c07:run-failed',
+                           'msg': '%s: run() ended with %r' % (what, outcome[1])})
+    elif ('block left', fire_at) not in log or any(entry[0] == 'continued' for entry in log) \
+            or any(entry[1] != fire_at for entry in log):
+        violations.append({'mechanism': 'c07:wrong-block-end',
+                           'msg': '%s: logged %s' % (what, log)})
+    for vio in violations:
+        vio['case'] = dict(case)
+    return violations, sess
+
+
 def run_case(case):
     rng = random.Random('%s/%s/c07-kind' % (case['seed'], case['index']))
+    if case['index'] % 20 in (7, 17):
+        violations, sess = primitive_waits(case, rng)
+        return {'evals': 1, 'sigs': [sess.signature()], 'violations': violations, 'sample': None,
+                'stats': {'blocks_suspended_in_primitive_waits': 1, 'activations': sess.n}}
     if case['index'] % 20 == 3:
         violations, sess = own_notification_inside(case, rng)
         return {'evals': 1, 'sigs': [sess.signature()], 'violations': violations, 'sample': None,
